@@ -266,11 +266,25 @@ func (s *Spec) govOps(st *explore.State) []explore.Op {
 			// proposal of that type is activated, timed and tallied with whatever got stored
 			kinds = append(kinds, "custom(valid)", "custom(empty-quorum)", "custom(empty-ratio)", "custom(no-period)", "custom(zero-period)", "custom(zero-quorum)", "custom(all-empty)")
 		}
+		// a proposal that makes the governance account itself a depositor of another proposal that is still open
+		// (its refund at that proposal's end goes to the governance account)
+		var openID uint64
+		for id := uint64(1); id < n; id++ {
+			if pr, err := gk.Proposals.Get(ctx, id); err == nil && (pr.Status == govv1.StatusDepositPeriod || pr.Status == govv1.StatusVotingPeriod) {
+				openID = id
+				break
+			}
+		}
+		if openID > 0 {
+			kinds = append(kinds, "gov-account-deposits-into-open-proposal")
+		}
 		for _, kind := range kinds {
 			kind := kind
 			ops = append(ops, explore.Op{Name: "GovPass(" + kind + ")", Run: func(c *explore.State) {
 				var msgs []sdk.Msg
 				switch kind {
+				case "gov-account-deposits-into-open-proposal":
+					msgs = []sdk.Msg{&govv1.MsgDeposit{ProposalId: openID, Depositor: world.GovAuthority(), Amount: sdk.NewCoins(world.FXCoin(1))}}
 				case "params":
 					p := scen.Keeper(s.w, ch).GetParams(c.Ctx)
 					p.AverageBlockTime = 6000
